@@ -139,7 +139,8 @@ def rule_r1_single(ctx: Ctx) -> int:
             continue
         bad, undecided, scenarios = [], [], 0
         for initial_rank in (None, 5):
-            for batch in [(a, b) for a in RANKS for b in RANKS]:
+            for batch in ([(a, b) for a in RANKS for b in RANKS] if ctx.tier != "thorough" else
+                          [(a, b) for a in RANKS for b in RANKS] + [(a, b, c_) for a in RANKS for b in RANKS for c_ in RANKS]):
                 scenarios += 1
                 init = None if initial_rank is None else Sym("old")
                 try:
